@@ -476,7 +476,7 @@ func clip(b []byte) []byte {
 func readBack(t *rapid.T, w *rep.Worker, fields []field, exp []byte, cuts []int) {
 	data := append([]byte{}, exp...)
 	// medium: truncate inside a nested payload, or inflate a nested length (last nested field only, so the framing before it stays valid)
-	fault := rapid.IntRange(0, 5).Draw(t, "readfault")
+	fault := rapid.IntRange(0, 6).Draw(t, "readfault")
 	faultField := -1
 	for i := len(fields) - 1; i >= 0; i-- {
 		if fields[i].kind == "nested" {
@@ -508,6 +508,27 @@ func readBack(t *rapid.T, w *rep.Worker, fields []field, exp []byte, cuts []int)
 		data = append(nd, data[start+kn+ln:]...)
 		truncated = true // fields after the damaged one are not judged
 		w.Step("medium: declared length of field %d set to %d (payload is %d bytes)", faultField, nl, tl)
+	}
+	if faultField >= 0 && fault == 6 {
+		// not damage, a legal variation: another writer may spell the length prefix with more bytes than needed
+		// (padded varint, as writers that back-patch a fixed-width prefix do). Everything stays valid and judged.
+		start := 0
+		if faultField > 0 {
+			start = cuts[faultField-1]
+		}
+		_, _, kn := protowire.ConsumeTag(data[start:])
+		l, ln := protowire.ConsumeVarint(data[start+kn:])
+		pad := rapid.IntRange(1, 3).Draw(t, "prefixpad")
+		nd := append([]byte{}, data[:start+kn]...)
+		v := l
+		for k := 0; k < ln+pad-1; k++ {
+			nd = append(nd, byte(v&0x7f)|0x80)
+			v >>= 7
+		}
+		nd = append(nd, byte(v&0x7f))
+		data = append(nd, data[start+kn+ln:]...)
+		w.Step("medium: length prefix of field %d re-spelled with %d padding byte(s)", faultField, pad)
+		w.Fault("non_minimal_length_prefix")
 	}
 	failUnm := rapid.IntRange(0, 3).Draw(t, "failunm") == 0
 	dec := csproto.NewDecoder(data)
